@@ -3,6 +3,8 @@
 package circuits
 
 import (
+	"math/big"
+
 	"github.com/consensys/gnark/frontend"
 	"github.com/reilabs/gnark-lean-extractor/v2/abstractor"
 
@@ -223,4 +225,30 @@ func (c *FromBinaryBECircuit) Define(api frontend.API) error {
 	api.AssertIsEqual(v2, c.Out)
 	unchanged(api, in, c.In)
 	return nil
+}
+
+// VerifyProofCapture runs the repository's VerifyProof gadget on a path given as plain input wires
+// (NOT constrained by this harness) and hands the computed root to a hint, which stores it in
+// Captured.  With the repository's ProofRound as it stands, a non-boolean path element fails its
+// AssertIsBoolean and nothing is captured; the forged-decomposition class of corrmerkle uses this
+// to learn which roots the circuit itself would compute from a non-binary "decomposition".
+type VerifyProofCapture struct {
+	Leaf frontend.Variable
+	Sibs []frontend.Variable
+	Path []frontend.Variable
+}
+
+var Captured *big.Int
+
+func CaptureHint(_ *big.Int, inputs []*big.Int, results []*big.Int) error {
+	Captured = new(big.Int).Set(inputs[0])
+	results[0].SetUint64(0)
+	return nil
+}
+
+func (c *VerifyProofCapture) Define(api frontend.API) error {
+	proof := append([]frontend.Variable{c.Leaf}, c.Sibs...)
+	root := abstractor.Call(api, prover.VerifyProof{Proof: proof, Path: c.Path})
+	_, err := api.Compiler().NewHint(CaptureHint, 1, root)
+	return err
 }
